@@ -266,8 +266,13 @@ func runC10(rec *vk.Rec, ci, rep int) {
 					id = 1
 				}
 				payload := fmt.Sprintf("%s|%s|%d|%s", pl.name, ch, seq[ch], strings.Repeat("x", pr.Intn(40)))
-				if pr.Chance(2) {
+				switch {
+				case pr.Chance(2):
 					payload += strings.Repeat("y", pr.Range(500, 4000))
+				case pr.Chance(1): // large messages: an encoder that splits them over several writes would interleave
+					payload += strings.Repeat("z", pr.Range(16000, 40000))
+				case pr.Chance(25): // sweep the small remaining lengths (127/128 boundary of the length encoding)
+					payload += strings.Repeat("w", (i*7+len(pl.name))%220)
 				}
 				c.Send(mqttref.Publish(id, key+"/"+ch, []byte(payload), 1, false))
 				total++
